@@ -45,6 +45,7 @@ struct Bus {
 	bool feature_mismatch = false;    // FEATURE answers carry value+1
 	int table_change_at = -1;         // send NODETAB_COUNT instead of the k-th NODETAB row (once)
 	int table_changes_left = 0;
+	int table_change_node = 0;        // index of the interface whose table changes while it is being read (0 = the root)
 	int drop_on_change = -1;          // node index that disappears at the moment of the table change
 	uint8_t nodetab_version = 1;
 	bool answer_drive = true;
